@@ -675,11 +675,21 @@ def r_slice_sib(ctx: RuleCtx, col: Collector):
                         col.bad(where_of(f), f.rel, line_of(f.node), f"{c.name}.{name} setter: no sliced store",
                                 "the setter never writes the base through the slice")
                 else:
-                    rets = [x for x in ast.walk(f.node) if isinstance(x, ast.Return) and x.value is not None and
-                            f"{sn}.{base_attr}.{role}[{sn}.{slice_attr}]" in norm(x.value)]
+                    want = f"{sn}.{base_attr}.{role}[{sn}.{slice_attr}]"
+                    rets = [x for x in ast.walk(f.node) if isinstance(x, ast.Return) and x.value is not None and want in norm(x.value)]
                     if not rets:
                         col.bad(where_of(f), f.rel, line_of(f.node), f"{c.name}.{name} getter: no sliced read",
                                 "the getter never returns the sliced base value")
+                    for r in rets:
+                        alts = [r.value.body, r.value.orelse] if isinstance(r.value, ast.IfExp) else [r.value]
+                        direct = any(norm(a) == want for a in alts)
+                        if direct:
+                            col.ok(where_of(f), f.rel, line_of(r), f"{c.name}.{name} getter returns the view itself", want)
+                        else:
+                            col.bad(where_of(f), f.rel, line_of(r), f"{c.name}.{name} getter returns the view itself",
+                                    f"the getter returns '{U(r.value)}' instead of the sliced base value itself: in-place "
+                                    f"updates through the returned object (nested slices, '+=' on basic slices) no longer "
+                                    f"reach the base signal")
         f = c.method("add_sensitivity")
         if f is not None:
             sn = m.self_name(f)
